@@ -80,10 +80,21 @@ def probe(runner, op):
 
     def aware():
         return twin(docs).with_options(codec_options=CodecOptions(tz_aware=True))
+
+    def naive(v):
+        # ids read through the aware handle carry tzinfo: compare them as the instants they are
+        import datetime as _dt
+        if isinstance(v, dict):
+            return {k: naive(x) for k, x in v.items()}
+        if isinstance(v, list):
+            return [naive(x) for x in v]
+        if isinstance(v, _dt.datetime) and v.tzinfo is not None:
+            return (v - v.utcoffset()).replace(tzinfo=None)
+        return v
     res['aware'] = {
-        'find': attempt(lambda: [d['_id'] for d in aware().find(F())]),
+        'find': attempt(lambda: [naive(d['_id']) for d in aware().find(F())]),
         'count': attempt(lambda: aware().count_documents(F())),
-        'match': attempt(lambda: [d['_id'] for d in aware().aggregate([{'$match': F()}])]),
+        'match': attempt(lambda: [naive(d['_id']) for d in aware().aggregate([{'$match': F()}])]),
         'find_one': attempt(lambda: aware().find_one(F()) is not None),
         'delete_many': attempt(lambda: aware().delete_many(F()).deleted_count),
     }
